@@ -49,7 +49,7 @@ def build_sky(m, wcs, cx, cy, unit_variant=0):
     return getattr(R, SKY[k])(c, q(m['w1']), q(m['w2']), q(m['h1']), q(m['h2']), angle=ang(m['d']))
 
 
-def check(ctx, st, idx, rnd, family, events, var=0):
+def check(ctx, st, idx, rnd, family, var=0):
     w, want, msky = st['w'], st['pix'], st['sky']
     frame = FRAMES[idx % 3]
     proj = PROJS[(idx // 3) % 2]
@@ -68,8 +68,14 @@ def check(ctx, st, idx, rnd, family, events, var=0):
     try:
         with warnings.catch_warnings():
             warnings.simplefilter('ignore')
-            sky = build_sky(msky, wcs, cx, cy, var)
-            if (var // 3) % 2:
+            if (var // 3) % 3 == 2:
+                # the region is first somewhere else, converted once with this WCS object, then moved here by assignment
+                sky = build_sky(msky, wcs, cx + 7.5, cy - 3.25, var)
+                sky.to_pixel(wcs)
+                sky.center = wcs.pixel_to_world(cx, cy)
+            else:
+                sky = build_sky(msky, wcs, cx, cy, var)
+            if (var // 3) % 3 == 1:
                 sky.to_pixel(wcs)            # an earlier conversion (or a contains() call) must not change the region
             pix = sky.to_pixel(wcs)
     except Exception as ex:  # noqa
@@ -106,33 +112,50 @@ def check(ctx, st, idx, rnd, family, events, var=0):
         ev['got']['ang'] = int(round(math.remainder(got, 2 * math.pi) * 1e6))
         if bad is None and abs(math.remainder(got - exp, 2 * math.pi)) > ang_tol:
             bad = ('angle', f'pixel angle {math.degrees(got):.6f} deg, sky angle + (north - 90 deg) = {math.degrees(exp):.6f} deg (tolerance {math.degrees(ang_tol):.2e} deg)')
-    events.append(ev)
+    ctx.emit(ev)
     if bad:
         ctx.violation(f'C07|{bad[0]}|{kindsig(want)}|{family}', bad[1], case)
     elif idx % 499 == 0:
         ctx.sample({'wcs': w, 'frame': frame, 'proj': proj, 'family': family, 'intended_pixel_image': want, 'model_sky': msky})
 
 
+NEAR_CFG = """SPECIFICATION Spec
+CONSTANTS Rots <- DirsNear
+ Scales <- S3
+ Parities <- P1
+ Regions <- RegsNear
+INVARIANT InvRoundTrip
+INVARIANT InvSizes
+CHECK_DEADLOCK FALSE
+"""
+_P = {}
+
+
+def _state_fn(rec, st, idx):
+    if st['sky'] == []:
+        return
+    rec.traces += 1
+    rnd = random.Random(_P['seed'] * 1000003 + idx)
+    check(rec, st, idx, rnd, ['exact', 'tight', 'tight', 'loose'][idx % 4] if not _P['near'] else ['exact', 'tight'][idx % 2], var=idx)
+
+
 def run(ctx):
+    from .. import par
     quick = ctx.tier == 'quick'
-    rnd = random.Random(ctx.seed * 71 + 7)
-    res = tlc.run('MC_Wcs', cfg_text=CFG.format(rots='DirsAll', scales='S4', par='P1', regs='RegsC07'), dump=True, tag='c07', timeout=3000)
-    ctx.tlc(res, 'MC_Wcs circle/ellipse/rectangle/annuli x 44 rotations x 4 scales, standard parity')
-    events = []
-    if res.violated:
-        ctx.violation(f'C07|model|{res.violated}', f'Wcs.tla: invariant {res.violated} fails in the model', {'trace': res.trace[-1:]})
-    else:
-        n = 0
-        for idx, st in enumerate(parse_dump(res.dump_path)):
-            if st['sky'] == []:
-                continue
-            if quick and idx % 12:
-                continue
-            n += 1
-            check(ctx, st, idx, rnd, ['exact', 'tight', 'tight', 'loose'][n % 4], events, var=n)
-        ctx.traces += n
-        ctx.note('replayed_states', n)
-    tlc.cleanup(res.workdir)
+    ctx.emitted = []
+    for near, cfgt, what in ((False, CFG.format(rots='DirsAll', scales='S4', par='P1', regs='RegsC07'), 'circle/ellipse/rectangle/annuli x 44 rotations x 4 scales, standard parity'),
+                             (True, NEAR_CFG, 'nearly north-up WCS (rotated by 0.76 deg), axis-aligned shapes')):
+        res = tlc.run('MC_Wcs', cfg_text=cfgt, dump=True, tag='c07', timeout=3000)
+        ctx.tlc(res, f'MC_Wcs {what}')
+        if res.violated:
+            ctx.violation(f'C07|model|{res.violated}', f'Wcs.tla: invariant {res.violated} fails in the model', {'trace': res.trace[-1:]})
+        else:
+            _P.update(seed=ctx.seed * 71 + 7, near=near)
+            before = ctx.traces
+            par.pmap_dump(ctx, _state_fn, res.dump_path, stride=2 if (quick and not near) else 1)
+            ctx.note('replayed_states_near' if near else 'replayed_states', ctx.traces - before)
+        tlc.cleanup(res.workdir)
+    events = ctx.emitted
     # (C) the logged triples validated against the integer prediction
     wd = tlc.workdir('c07trace')
     path = os.path.join(wd, 'events.json')
